@@ -19,7 +19,9 @@ CLAIM = dict(
           "access lies inside the issuing view's range, inside the allocation, on the allocation's chip and is "
           "non-empty (confinement); every read/write/seek/tell refines a fixed-length file with a position "
           "(bytes returned, truncation at the end with a warning, position advances by the bytes transferred, "
-          "memory outside the view untouched), call by call and for whole histories on a view; a slice covers exactly the sub-range Python's slice.indices names; "
+          "memory outside the view untouched), call by call and for whole histories on a view, INCLUDING calls whose "
+          "transfer fails (the controller's read/write raises SCPError: the error propagates, the position does not "
+          "move, a failed read delivers nothing, a failed write leaves exactly the bytes the machine stored); a slice covers exactly the sub-range Python's slice.indices names; "
           "after close or free every I/O operation and every slicing raises OSError and no access is ever issued again. Tied to the "
           "code by exact correspondence of whole histories against a recording controller, with the Lean "
           "specification evaluated on every observed call of the implementation."),
@@ -35,7 +37,8 @@ CLAIM = dict(
     technique="Lean 4 theorems over a hand-written model + differential correspondence + Lean spec as oracle")
 
 THEOREMS = ["step_confined", "step_WF", "run_confined", "run_confined_alloc", "slice_exact", "slice_within_parent",
-            "step_refines_file", "run_refines_file", "read_back", "close_closes", "dead_after_close", "free_frees",
+            "step_refines_file", "run_refines_file", "failed_read_moves_nothing", "failed_write_moves_nothing",
+            "early_offset_update_breaks_failed_read", "read_back", "close_closes", "dead_after_close", "free_frees",
             "no_access_after_free", "orig_read_escapes_below", "orig_write_escapes_above", "fix_conservative",
             "orig_slice_of_closed_view_is_open", "getitem_fix_conservative",
             "seek_end_sign"]
@@ -43,7 +46,10 @@ THEOREMS = ["step_confined", "step_WF", "run_confined", "run_confined_alloc", "s
 RULE = ("histories of 1-14 calls (seek with all three origins and offsets from -len-3 to len+4 biased to the edges, "
         "bad origin; read default / explicit counts incl. 0, negative and beyond the end; writes of 0-2*len bytes; "
         "slices with None/negative/reversed/out-of-range bounds and steps None/1/other, nested to depth 4; "
-        "non-slice keys; tell/address/len/flush; close (plain or with-block) and free at any point) on views of "
+        "non-slice keys; tell/address/len/flush; close (plain or with-block) and free at any point; FAULT INJECTION: "
+        "about 15% of the reads/writes run while the recording controller's read/write raises rig's TimeoutError / "
+        "FatalReturnCodeError (a failing write first stores 0..all of the bytes it was handed), followed by tell + "
+        "retry, relative seek + retry, read-back, or slice + close, and then the rest of the history) on views of "
         "length 0-12 (sometimes up to 40, sometimes end < start) at bases 0, 1 and SDRAM addresses, created "
         "directly, by sdram_alloc_as_filelike and by sdram_alloc_for_vertices; a history is non-trivial when at "
         "least one read or write was truncated; distinct = distinct canonical JSON of the history")
@@ -64,6 +70,8 @@ WHAT = {
     "dead-view-sliced": "slicing a closed view / a view of a freed allocation did not fail (it returned a fresh open view)",
     "slice-range": "a slice does not cover exactly the clipped sub-range it names",
     "seek-from-end-sign": "seek(n, 2) moves to len-n; the documented (file) semantics is len+n",
+    "failed-transfer": "a read/write whose transfer failed (the controller raised) did not leave the view as "
+                       "a failed file operation does: position unmoved, nothing delivered, the error raised",
     "bounded-file": "a call does not behave like the same call on a fixed-length file",
 }
 
@@ -87,6 +95,13 @@ def fake_class():
             ContextMixin.__init__(self, {"app_id": 66, "x": None, "y": None})
             self.base, self.mem, self.alloc_base = base, bytearray(win), alloc_base
             self.log = []
+            self.fault = None       # armed by the harness for one call: (bytes to store first, exception kind)
+
+        def _raise(self, kind):
+            from rig.machine_control import scp_connection
+            if kind == "fatal":
+                raise scp_connection.FatalReturnCodeError(0x86)
+            raise scp_connection.TimeoutError("no response from chip (injected fault)")
 
         def sdram_alloc(self, size, tag=0, x=None, y=None, app_id=None, clear=False):
             self.alloc = (size, tag, x, y, clear)
@@ -94,6 +109,10 @@ def fake_class():
 
         def read(self, address, length_bytes, x=None, y=None, p=0):
             self.log.append(["r", address, length_bytes, x, y, p])
+            if self.fault is not None:
+                # the transfer fails (SCP timeout / fatal return code): nothing is delivered
+                fault, self.fault = self.fault, None
+                self._raise(fault[1])
             out = bytearray()
             for a in range(address, address + max(0, length_bytes)):
                 i = a - self.base
@@ -103,10 +122,16 @@ def fake_class():
         def write(self, address, data, x=None, y=None, p=0):
             data = bytes(data)
             self.log.append(["w", address, list(data), x, y, p])
+            fault, self.fault = self.fault, None
+            if fault is not None:
+                # the transfer fails after the machine stored the first fault[0] bytes
+                data = data[:fault[0]]
             for k, b in enumerate(data):
                 i = address + k - self.base
                 if 0 <= i < len(self.mem):
                     self.mem[i] = b
+            if fault is not None:
+                self._raise(fault[1])
 
         def sdram_free(self, ptr, x=None, y=None):
             self.log.append(["f", ptr, x, y])
@@ -192,6 +217,7 @@ def call(view, op):
 def run_impl(case):
     """Run the history on the real code; returns dict(outs, steps, views, freed, win)."""
     from rig.machine_control.machine_controller import SlicedMemoryIO, TruncationWarning
+    from rig.machine_control.scp_connection import SCPError
     start, _ = root_range(case)
     base = start - case["margin"]
     mc = fake_class()(base, case["win"], start)
@@ -210,6 +236,8 @@ def run_impl(case):
         pre, freed = snap(v), bool(root._freed)
         del mc.log[:]
         nv = None
+        # fault injection: the controller's read / write raises during this call (if it is reached)
+        mc.fault = (op["fault"], op.get("exc", "timeout")) if op.get("fault") is not None else None
         with warnings.catch_warnings(record=True) as wl:
             warnings.simplefilter("always")
             try:
@@ -220,10 +248,13 @@ def run_impl(case):
                     ret = {"view": len(views) - 1}
                 else:
                     ret = canon_ret(r, views)
+            except SCPError:
+                ret = {"err": "TransferError"}      # the controller's documented transfer errors
             except (OSError, ValueError, AttributeError) as e:
                 ret = {"err": type(e).__name__}
             except Exception as e:  # any other exception is an observation, not a harness fault
                 ret = {"err": "Other:" + type(e).__name__}
+        mc.fault = None
         warn = any(issubclass(w.category, TruncationWarning) for w in wl)
         out = {"ret": ret, "warn": warn, "acc": mc.log[0] if mc.log else None}
         if len(mc.log) > 1:
@@ -290,7 +321,10 @@ def judge(case, impl, model, check):
     else:
         for st, fails in zip(impl["steps"], check["fails"]):
             if fails:
-                viol.append((st["idx"], key_of(fails), fails))
+                key = key_of(fails)
+                if key == "bounded-file" and st["op"].get("fault") is not None and st["out"]["acc"] is not None:
+                    key = "failed-transfer"     # the controller raised during this call
+                viol.append((st["idx"], key, fails))
         if check.get("root"):
             viol.append((-1, "confinement", ["root-view-is-not-the-allocation"]))
     # an extra controller access in the same call: judge its confinement here
@@ -405,6 +439,8 @@ def process(ctx, cases):
                 st = next(t for t in im2["steps"] if t["idx"] == first[0])
                 detail = " | step %d: view [start,stop,offset,closed]=%r freed=%r op=%r -> %r, view after %r; failed clauses %r" % (
                     first[0], st["pre"], st["freed"], st["op"], st["out"], st["post"], first[1])
+            if small["ops"] != c["ops"]:
+                small = dict(small, history_before_shrinking=c["ops"])
             ctx.violation(key, WHAT.get(key, key) + detail, small)
 
 
@@ -449,7 +485,12 @@ def gen_case(rng):
     depth = [0]
     closed, freed = [False], False      # generator aid: which views the guarded code refuses to slice
     ops = []
-    for _ in range(rng.randint(1, 14)):
+    target = rng.randint(1, 14)
+    pending = []                         # follow-ups of an injected fault (the view keeps being used)
+    while len(ops) < target or pending:
+        if pending:
+            ops.append(pending.pop(0))
+            continue
         v = rng.randrange(len(lens)) if rng.random() < 0.7 else len(lens) - 1
         Lv = lens[v]
         r = rng.random()
@@ -496,6 +537,28 @@ def gen_case(rng):
             op = {"k": "free", "v": v if rng.random() < 0.3 else 0}
             if op["v"] == 0:
                 freed = True
+        if op["k"] in ("read", "write") and rng.random() < 0.15:
+            # fault injection: the controller raises during this call (if a transfer is made); a
+            # failing write has stored `fault` bytes of what it was handed
+            retry = dict(op)
+            op["fault"] = rng.choice([0, 0, 1, 2, 3, Lv, 100]) if op["k"] == "write" else 0
+            op["exc"] = rng.choice(["timeout", "timeout", "fatal"])
+            f = rng.random()
+            if f < 0.35:
+                pending += [{"k": "tell", "v": v}, retry]
+            elif f < 0.55:
+                pending += [{"k": "seek", "v": v, "n": rng.choice([-1, 0, 1, 2]), "w": 1}, retry, {"k": "tell", "v": v}]
+            elif f < 0.7:
+                pending += [retry, {"k": "seek", "v": v, "n": 0, "w": 0, "short": True},
+                            {"k": "read", "v": v, "n": -1, "dflt": True}]
+            elif f < 0.8:
+                pending += [{"k": "slice", "v": v, "a": None, "b": None, "s": None}, {"k": "close", "v": v}]
+                if not closed[v] and not freed:
+                    lens.append(Lv)
+                    depth.append(depth[v] + 1)
+                    closed.append(False)
+                if not freed:
+                    closed[v] = True
         ops.append(op)
     case["ops"] = ops
     return case
@@ -507,6 +570,7 @@ EXH_ALPHABET = [
     {"k": "seek", "n": 0, "w": 2}, {"k": "seek", "n": -1, "w": 2}, {"k": "seek", "n": 1, "w": 2},
     {"k": "read", "n": -1, "dflt": True}, {"k": "read", "n": 2},
     {"k": "write", "d": [171]}, {"k": "write", "d": [1, 2, 3, 4]},
+    {"k": "read", "n": 2, "fault": 0}, {"k": "write", "d": [7, 8], "fault": 1},
     {"k": "slice", "a": 1, "b": None, "s": None}, {"k": "slice", "a": -2, "b": -1, "s": None},
     {"k": "close"}, {"k": "free"},
 ]
@@ -564,6 +628,8 @@ def corpus_cases():
 def run(ctx):
     ctx.extra["rule"] = RULE
     ctx.assumptions += [
+        "a failed transfer is the controller's read/write raising SCPError (TimeoutError, FatalReturnCodeError) "
+        "after storing a prefix (possibly empty, possibly all) of a write; the view lets it propagate",
         "the controller's read returns exactly the requested number of bytes and write stores exactly the given bytes (C07)",
         "'every operation fails' after close/free is claimed for read, write, seek, tell, flush, address and "
         "slicing; __len__ and a repeated close() are not among the property's operations (no memory access, not "
